@@ -8,18 +8,18 @@ PROPS["C17"] = P(
     "Judgement: after a delivered fault the result must be Err whose chain contains the tag (Ok = violation `ok-after-fault`, another error = `wrong-error`); duplicates (adjacent, first+last, far apart, multiplicity 2..10 spread or as a run, "
     "in 10..10^5 keys, thorough 10^6) with check_dups(true) must give Err within 4 passes over the keys (8 when the logic uses several shards, since another shard may legitimately fail first), Ok = `ok-on-duplicates`; "
     "every Ok of a fault-free or not-reached run has len() and ALL pairs checked; a panic is a violation; more rewinds than the bound (duplicates: allowed passes + 6; otherwise 20000 for n <= 5000, 200 above) is `no-progress`. "
-    "Nothing is generated or judged for duplicates without check_dups. "
+    "Extra duplicate strata: a rank sweep (the n keys followed by key #j again, one build for EVERY j of a 4200-key function and a 2100-key filter, so that the duplicated pair takes every rank of the signature-sorted shard in every attempt) and duplicates in 100000/200000-key sets (2/4 shards) with max_num_threads 1/2 (more shards than solver threads; a build that never returns is reported through the 300 s hang limit). Nothing is generated or judged for duplicates without check_dups. "
     "distinct_nontrivial = number of distinct (variant | lender | next-pass-p-position-class or rewind-k | how the retry was forced | n class | store) cells in which the injected fault was really delivered "
     "(Stats.fired recorded by the lender) or, for fault-free duplicate plans, the duplicate was refused",
     dict(builds=["DBG", "UBC"]),
     dict(builds=["DBG", "UBC"]),
     hang="violation",
-    hang_limit=600,
+    hang_limit=300,
     level_text="Fault enumeration: every position of every pass (1-4) and every rewind at which the key or value source can fail is enumerated for small inputs and sampled at the edges for large ones, with a tagged error injected by the harness's own "
     "lender, and every placement/multiplicity class of a duplicated key; each plan is run against the real builder in a debug build and a release build with -Zub-checks and the result compared with what the plan dictates. "
     "Right level because the property quantifies over fault sequences and duplicate placements, and the fault points are few and enumerable while the key sets are sampled.",
     level_note="Trusted: the ProbeLender (it is the fault source and the recorder), the tag check on the anyhow error chain, the key/value generators. Not covered: faults of the offline store's own files (disk full), "
     "two faults in the same lender, key counts above 10^6, multi-shard duplicate detection races beyond what the OS scheduler produced; "
-    "the bound on retries for non-duplicate plans is the bounded-progress rule of C07 (20000/200 attempts), wall-clock only through the 600 s hang limit.",
+    "the bound on retries for non-duplicate plans is the bounded-progress rule of C07 (20000/200 attempts), wall-clock only through the 300 s hang limit.",
     technique="runtime monitoring with fault injection: enumerated (pass, position)/rewind I/O faults and duplicate placements through an instrumented RewindableIoLender, results judged against the plan under UB-checking builds",
 )
